@@ -24,6 +24,7 @@ Obj *make(int v);
 Obj *borrow(int i);
 Other *makeOther();
 int *newints(int n);
+char *dupname(int v);         // malloc'ed, caller-owned; lengths 0, 1, 15, 16 and 40 included
 int *libints(int n);
 const std::string name(const Obj &o);
 Obj *acquire(int v);          // a slot of the library's pool: must be given back with release_obj, never deleted
